@@ -14,6 +14,7 @@ VERIF = os.path.dirname(os.path.dirname(os.path.abspath(__file__)))
 REPO = os.environ.get('SELFTEST_REPO', '/repo')
 
 def run_case(d):
+    d = os.path.abspath(d)
     meta = json.load(open(os.path.join(d, 'meta.json')))
     props = meta.get('properties') or [meta['property']]
     props = meta.get('check_properties', props)
@@ -77,6 +78,8 @@ def main():
             RESULTS[os.path.relpath(d, VERIF)] = {'as_expected': ok, 'expect': meta.get('expect', 'fail'), 'summary': meta.get('summary') or meta.get('what', ''), 'output': msg[:400]}
             bad += 0 if ok else 1
     print('%d cases, %d not as expected' % (len(dirs), bad))
+    if os.environ.get('SELFTEST_RUNNING'):
+        sys.exit(1 if bad else 0)  # a slice run from a thorough check: do not touch the recorded results
     # keep the most recent outcome per case for DESIGN.md (tools/seedtable.py)
     resf = os.path.join(VERIF, 'selftest', 'results.json')
     try:
